@@ -289,6 +289,21 @@ func c06Run(w *W, c Case) {
 		w.Distinct(1)
 		w.Count("walks", 1)
 	}
+	// the year object obtained at the start is still this year's table now that the walks above have had other years
+	// computed (and the one-slot cache refilled several times): a handle a caller keeps stays valid
+	if y+3 <= maxYear {
+		calendar.NewLunarYear(y + 3)
+	}
+	if y-2 >= minYear {
+		calendar.NewLunarYear(y - 2)
+	}
+	if again := tableMonths(ly, true); fmt.Sprint(again) != fmt.Sprint(ms) {
+		w.Violatef("held-year", key, "the LunarYear obtained for %d lists %v after other years were computed; when obtained it listed %v", y, again, ms)
+	}
+	if full := tableMonths(ly, false); len(full) != 15 {
+		w.Violatef("held-year", key+"/table", "the LunarYear obtained for %d has a %d-entry table after other years were computed", y, len(full))
+	}
+	w.Eval(2)
 	w.Distinct(1)
 	if y == 2033 {
 		w.Sample("year", map[string]interface{}{"year": y, "months": ms})
